@@ -775,6 +775,50 @@ func main() {
 		addParts("h.io", "a"+sep+"b", "t", "", "separators")
 	}
 
+	// 3b. long hosts: every shape of the host grammar at lengths around and far beyond the limits a
+	// length check would use (long.go). The host alone (predicates), in a short reference, as parts,
+	// with every other part at its own limit, and spoiled by one byte.
+	longHosts := 0
+	hostLens := hostLengths(cfg.Thorough())
+	for _, n := range hostLens {
+		for shape := 0; shape < nHostShapes; shape++ {
+			if n > 1100 && shape != hsOneLetter && shape != hsDNSLabels && shape != hsIPv6Port {
+				continue // the very long ones in three shapes only (time)
+			}
+			h := hostOfLen(rng, n, shape)
+			longHosts++
+			addStr(h, "long-host")
+			r, t, d := pick(rng, "r", "foo/bar", genRepo(rng, true)), "", ""
+			if rng.Intn(2) == 0 {
+				t = genTag(rng, true)
+			}
+			if rng.Intn(3) == 0 {
+				d = genDigest(rng, true)
+			}
+			addStr(join(h, r, t, d), "long-host")
+			addParts(h, r, t, d, "long-host")
+			if (n+shape)%4 == 0 { // every part at its limit
+				r, t, d = repoOfLen(rng, 255), randFrom(rng, tagFirst, 1)+randFrom(rng, tagRest, 127), "sha512:"+randFrom(rng, hexd, 128)
+				addStr(join(h, r, t, d), "long-host")
+				addParts(h, r, t, d, "long-host")
+			}
+			if (n+shape)%3 == 0 {
+				bad := spoilHost(rng, h)
+				addStr(bad, "long-host-spoiled")
+				addStr(bad+"/r:t", "long-host-spoiled")
+				addParts(bad, "r", "t", "", "long-host-spoiled")
+			}
+		}
+	}
+	out.Extra["long_hosts"] = map[string]any{"lengths": hostLens, "shapes": hostShapeNames, "hosts": longHosts}
+	// a host length for the grammar-directed stream: mostly near a limit, sometimes anywhere up to 600
+	longHostLen := func() int {
+		if rng.Intn(3) == 0 {
+			return 10 + rng.Intn(590)
+		}
+		return hostLens[rng.Intn(len(hostLens))]
+	}
+
 	// 4. grammar-directed references, their parts, and their components alone
 	n := 1500
 	if cfg.Thorough() {
@@ -785,6 +829,9 @@ func main() {
 		h, r, t, d := "", genRepo(rng, okOnly), "", ""
 		if rng.Intn(5) > 0 {
 			h = genHost(rng)
+			if rng.Intn(16) == 0 {
+				h = hostOfLen(rng, longHostLen(), rng.Intn(nHostShapes))
+			}
 			if !okOnly && rng.Intn(6) == 0 {
 				h = mutate(rng, h)
 			}
@@ -842,6 +889,9 @@ func main() {
 	// hosts alone
 	for i := 0; i < nd; i++ {
 		h := genHost(rng)
+		if i%10 == 9 {
+			h = hostOfLen(rng, longHostLen(), rng.Intn(nHostShapes))
+		}
 		if i%3 == 0 {
 			h = mutate(rng, h)
 		}
